@@ -140,8 +140,9 @@ def fuzzy_column_match(pos: CodeRange, location: Location) -> bool:
 
 class ResultSet(dict[str, dict[Path, list[Result]]]):
     def add_result(self, result: Result):
-        for loc in result.locations:
-            self.setdefault(result.rule_id, {}).setdefault(loc.file, []).append(result)
+        # a result with several locations in one file is still one result of that file
+        for file in dict.fromkeys(loc.file for loc in result.locations):
+            self.setdefault(result.rule_id, {}).setdefault(file, []).append(result)
 
     def results_for_rule_and_file(
         self, context: CodemodExecutionContext, rule_id: str, file: Path
